@@ -109,6 +109,10 @@ Q = [
     ['file', {'encoding': 'utf-8\n#...meta: length=2'}],
     ['diff', {'content': b'x\n', 'encoding': 'UTF 8'}],
     ['file', {'encoding': 'utf-8, length=5'}],
+    # characters that case-fold to ASCII letters
+    ['change', {'encoding': 'utf-8\u212a'}],
+    ['file', {'encoding': 'lat\u0131n-1'}],
+    ['change', {'encoding': 'a\u017fcii'}],
     ['preamble', {'text': 'x', 'encoding': 'iso, ir=100'}],
 ]
 ALL = V2 + I + Q
@@ -621,7 +625,7 @@ def checks():
                  'arguments up to length LV, and all sequences over 12 valid '
                  '+ 53 invalid-argument variants (wrong types, empty content, '
                  'bad option values, unencodable text incl. lone surrogates, '
-                 'unknown and non-text codecs) + 10 codec names that cannot '
+                 'unknown and non-text codecs) + 13 codec names that cannot '
                  'stand as a header value (refused atomically, or accepted '
                  'and readable) up to length LA; per step: '
                  'accepted iff the section may follow (my table) and the '
